@@ -60,6 +60,53 @@ def poly_reference(r, rmin, rmax, c, r0, s):
     return func, ab, fs, as_
 
 
+def poly_scales(r, rmin, rmax, c, r0, s, reduced):
+    """Sum of the absolute values of the terms the code adds up, per grid point:
+    (func_scale, abel_scale).  Mirrors polynomial.py:118-226 with |.| everywhere."""
+    from scipy.linalg import pascal, toeplitz
+    n = len(r)
+    zf = np.zeros(n)
+    if rmax <= 0:
+        return zf, zf
+    rmin = max(rmin, 0.0)
+    c = np.array(np.trim_zeros(np.asarray(c, float), 'b'), float)
+    if len(c) == 0:
+        return zf, zf
+    K = len(c) - 1
+    sc = 1.0
+    r = np.asarray(r, float)
+    if reduced:
+        r = r / rmax; r0 = r0 / rmax; s = s / rmax; sc = rmax; rmin = rmin / rmax; rmax = 1.0
+    ca = np.abs(c) * np.abs(1.0 / s) ** np.arange(K + 1)
+    if r0 != 0.0:
+        P = pascal(1 + K, 'upper', False)
+        T = toeplitz([1.0] + [0.0] * K, np.abs(float(r0)) ** np.arange(K + 1))
+        ca = (P * T).dot(ca)
+    fs = sum(ca[k] * r ** k for k in range(K + 1))
+    as_ = np.zeros(n)
+    for i, x in enumerate(r):
+        if not x < rmax:
+            continue
+        yup = np.sqrt(max(rmax * rmax - x * x, 0.0)); ylo = np.sqrt(max(rmin * rmin - x * x, 0.0))
+        m = max(rmin, x)
+        l1 = abs(np.log(rmax + yup)) if rmax + yup > 0 else 0.0
+        l2 = abs(np.log(m + ylo)) if m + ylo > 0 else 0.0
+        tot = 0.0
+        for k in range(K + 1):
+            C = 1.0 / (k + 1); j = 0; ak = 0.0
+            while True:
+                ak += C * x ** j * (rmax ** (k - j) * yup + rmin ** (k - j) * ylo)
+                if k - j < 2:
+                    break
+                C = C * (k - j) / (k - j - 1); j += 2
+            if k % 2:
+                ak += C * x ** (k + 1) * (l1 + l2 + 2.0)
+            tot += ca[k] * sc * 2 * ak
+        as_[i] = tot
+    return fs, as_
+
+
+
 def _cmp(name, got, ref, scale, rtol, floor=0.0):
     got = np.asarray(got, float)
     ref = np.asarray(ref, float)
@@ -84,10 +131,11 @@ def cl_polynomial(r, rmin, rmax, c, r0, s, reduced):
     r = np.asarray(r, float)
     P = Polynomial(r, rmin, rmax, np.asarray(c, float), r0, s, reduced)
     func, ab, fs, as_ = poly_reference(r, rmin, rmax, c, r0, s)
-    ok, d = _cmp('func', P.func, func, fs, RTOL_FUNC * 100)
+    fs2, as2 = poly_scales(r, rmin, rmax, c, r0, s, reduced)
+    ok, d = _cmp('func', P.func, func, fs + fs2, RTOL_FUNC * 100)
     if not ok:
         return ok, d
-    return _cmp('abel', P.abel, ab, as_, RTOL_ABEL)
+    return _cmp('abel', P.abel, ab, as_ + as2, RTOL_ABEL)
 
 
 def cl_piecewise(r, ranges):
@@ -100,7 +148,8 @@ def cl_piecewise(r, ranges):
     func = np.zeros(n); ab = np.zeros(n); fs = np.zeros(n); as_ = np.zeros(n)
     for (a, b, c, r0, s, red) in ranges:
         f1, a1, s1, s2 = poly_reference(r, a, b, c, r0, s)
-        func += f1; ab += a1; fs += s1; as_ += s2
+        s3, s4 = poly_scales(r, a, b, c, r0, s, red)
+        func += f1; ab += a1; fs += s1 + s3; as_ += s2 + s4
     ok, d = _cmp('func', P.func, func, fs, RTOL_FUNC * 100)
     if not ok:
         return ok, d
@@ -124,17 +173,22 @@ def spoly_reference(r, cos, rmin, rmax, c, r0, s):
         return func, ab, fs, as_
     rmin = max(rmin, 0.0)
     M, N = c.shape
+    # |coefficients| of the powers of r the code works with (after stretch and Pascal/Toeplitz shift)
+    from scipy.linalg import pascal, toeplitz
+    ca = np.abs(c) * (np.abs(1.0 / s) ** np.arange(M))[:, None]
+    if r0 != 0.0 and M > 1:
+        ca = (pascal(M, 'upper', False) * toeplitz([1.0] + [0.0] * (M - 1), np.abs(float(r0)) ** np.arange(M))).dot(ca)
 
     def f(R, C, absval=False):
-        t = (R - r0) / s
         if absval:
-            t = np.abs(t); C = np.abs(C)
+            C = np.abs(C)
+            return sum(ca[m, n] * np.abs(R)**m * C**n for m in range(M) for n in range(N) if ca[m, n])
+        t = (R - r0) / s
         tot = 0.0
         for m in range(M):
             for n in range(N):
-                cm = abs(c[m, n]) if absval else c[m, n]
-                if cm:
-                    tot = tot + cm * t**m * C**n
+                if c[m, n]:
+                    tot = tot + c[m, n] * t**m * C**n
         return tot
     for idx in np.ndindex(shape):
         x = r[idx]; cs = cos[idx]
